@@ -11,7 +11,7 @@ from props.c02 import expected_same
 ID = 'C04'
 COQ_PROP = 'C04'
 LEVEL = 'proof'
-TRANSLATE = ['sql', 'disk']
+TRANSLATE = ['sql', 'disk', 'fanout', 'django']
 TRUSTED = [
     'coq/base/SqlBase.v + Val.v: relational reading of the SQL subset (three-valued WHERE, stable ORDER BY, LIMIT), compiled from the SQL text of core.py by tools/sqlsubset.py; validated by the row-level correspondence of this run',
     'times are Z ticks of 2^-10 s; the harness keeps clock and ttl on that grid (now + expire exact in binary64)',
